@@ -357,3 +357,11 @@ func TestC02Plain(t *testing.T) {
 		Rule: "plain fragment (plain/anonymous variables, each named variable once, nothing pre-bound) x set-like messages; the set of returned bindings must equal the reference embeddings; non-trivial = >= 1 embedding with a variable, or >= 2 embeddings"},
 		genPlain, checkPlain)
 }
+
+func FuzzC01Sound(f *testing.F) {
+	ev.Fuzz(f, ev.Opts{Property: "C01", Name: "sound"}, genSound, checkSound)
+}
+
+func FuzzC02Planted(f *testing.F) {
+	ev.Fuzz(f, ev.Opts{Property: "C02", Name: "planted"}, genPlanted, checkPlanted)
+}
